@@ -6,6 +6,7 @@ mod model;
 mod registry;
 
 mod c01;
+mod c01b;
 mod c02;
 mod e3;
 mod c03;
@@ -39,7 +40,7 @@ use crate::registry::DynPart;
 fn parts_for(id: &str) -> Option<(&'static str, Vec<Box<dyn DynPart>>, Vec<String>)> {
     let none: Vec<String> = vec![];
     Some(match id {
-        "C01" => ("C01", c01::parts(), none),
+        "C01" => ("C01", { let mut p = c01b::parts(); p.extend(c01::parts()); p }, none),
         "C02" => ("C02", c02::parts(), none),
         "C03" => ("C03", c03::parts(), none),
         "C04" => ("C04", c04::parts(), none),
